@@ -18,13 +18,13 @@ def streams_for(tier, seed):
     S = []
     # all Boolean terms of the exhaustive C01 stream (depth 1: W = 1, 2, 3; depth 2: seeded sample)
     for W in (1, 2, 3):
-        S.append({"gen": "truth", "src": "exh", "W": W, "depth": 1, "det": True, "stride": (2 if q and W == 3 else 1)})
-    for (W, k) in ((1, 16 if q else 1), (2, 120 if q else 6), (3, 1200 if q else 40)):
+        S.append({"gen": "truth", "src": "exh", "W": W, "depth": 1, "det": True, "stride": 1})
+    for (W, k) in ((1, 16 if q else 1), (2, 100 if q else 2), (3, 1000 if q else 12)):
         S.append({"gen": "truth", "src": "exh", "W": W, "depth": 2, "sample": k, "sample_seed": seed})
-    S.append({"gen": "truth", "src": "booltrees", "n": 60 if q else 1500, "depth": 4})
+    S.append({"gen": "truth", "src": "booltrees", "n": 80 if q else 4000, "depth": 4})
     # wider widths (8..64): a True answer is checked on 64 sampled assignments only (refutation, no validity claim)
     S.append({"gen": "truth", "src": "rules", "per": 1 if q else 4, "widths": [8, 16, 32, 64], "whole": True, "wide": True})
-    S.append({"gen": "truth", "src": "rand", "n": 40 if q else 1200, "depth": 4, "widths": [8, 9, 16, 31, 32, 33, 64],
+    S.append({"gen": "truth", "src": "rand", "n": 50 if q else 3000, "depth": 4, "widths": [8, 9, 16, 31, 32, 33, 64],
               "wide": True})
     return S
 
@@ -60,6 +60,32 @@ def z3_opinion(ev, clause):
     return "n/a"
 
 
+def claims_of(ev, clause):
+    return [[q["f"], q["via"], "cached" if q["cached"] else "computed"] for q in ev["qs"]
+            if q["out"] == "ok" and q["ans"] and q["f"] + "-overclaims" == clause]
+
+
+def truth_sig(ev, clause):
+    return C.sig(["truths", ev["w"], clause, sorted(c[:2] for c in claims_of(ev, clause))])
+
+
+def replay(pid, path):
+    """re-execute the whole recorded history (the worker job: same seeds, fresh interpreter, current tree) and let TLC
+    judge every answer again; exit 1 when the same term is over-claimed by the same checks again"""
+    with open(path) as fh:
+        p = json.load(fh)
+    bad, _stats = C.pipeline("w_truth", [p["job"]], "TraceExpr.tla")
+    hits = [(ev, cl) for _, ev, cl, _x in bad if cl == p["clause"] and truth_sig(ev, cl) == p["sig"]]
+    if hits:
+        ev, cl = hits[0]
+        print(f"VIOLATION property={pid} replay={path}")
+        print("  reproduced at history index %d (phase %s): %s on %s by %s" % (ev["gi"], ev["phase"], cl, json.dumps(ev["w"]),
+                                                                                claims_of(ev, cl)))
+        return 1
+    print(f"OK property={pid} replay={path}: the recorded claim is not made again ({len(bad)} other rejected event(s))")
+    return 0
+
+
 def check(pid, tier, regen=False):
     seed = C.seed()
     R = C.Result(pid, "exploration", tier)
@@ -79,15 +105,14 @@ def check(pid, tier, regen=False):
     exact = C.load_set(f"{pid}-exact.txt")
     new_exact = set()
     n_checked = n_known = n_so = 0
-    for _, ev, clause, _x in bad:
+    for jx, ev, clause, _x in bad:
         n_checked += 1
-        claims = [[q["f"], q["via"], "cached" if q["cached"] else "computed"] for q in ev["qs"]
-                  if q["out"] == "ok" and q["ans"] and q["f"] + "-overclaims" == clause]
+        claims = claims_of(ev, clause)
         errs = [[q["f"], q["via"], q["out"]] for q in ev["qs"] if q["out"] != "ok"]
-        s = C.sig(["truths", ev["w"], clause, sorted(c[:2] for c in claims)])
+        s = truth_sig(ev, clause)
         pl = {"property": pid, "clause": clause, "term": ev["w"], "phase": ev["phase"], "claims": claims, "errors": errs,
               "history_index": ev["gi"], "assignments": "sampled" if ev["sampled"] else "exhaustive", "sig": s,
-              "deterministic_stream": ev["det"]}
+              "deterministic_stream": ev["det"], "job": jobs[jx]}
         if clause.endswith("overclaims"):
             n_so += 1
             so = z3_opinion(ev, clause) if n_so <= 60 else "not-run (cap 60)"
@@ -128,7 +153,7 @@ def check(pid, tier, regen=False):
         "clauses_failed_and_examined": n_checked,
         "known_instances": n_known,
         "exhaustive": False,
-        "exhaustive_scopes": "all Boolean depth-1 terms at W <= 3" + (" (W = 3: every 2nd)" if tier == "quick" else "")
+        "exhaustive_scopes": "all Boolean depth-1 terms at W <= 3"
                              + "; every assignment for terms with <= 10 variable bits",
         "tlc_module": "TraceExpr.tla (UtilSem.tla!UTruths, Term.tla, BVBits.tla)",
     }
